@@ -74,14 +74,31 @@ func (p *ProofU) correctResponseSizes(pk *gabikeys.PublicKey) bool {
 	return p.VPrimeResponse.Cmp(minimum) >= 0 && p.VPrimeResponse.Cmp(maximum) <= 0
 }
 
+// checkStructure checks that all mandatory elements of the proof are present and
+// that all attribute indices fall within the bases of the public key.
+func (p *ProofU) checkStructure(pk *gabikeys.PublicKey) bool {
+	if p.U == nil || p.C == nil || p.VPrimeResponse == nil || p.SResponse == nil {
+		return false
+	}
+	for i, response := range p.MUserResponses {
+		if i < 0 || i >= len(pk.R) || response == nil {
+			return false
+		}
+	}
+	return true
+}
+
 // VerifyWithChallenge verifies whether the proof is correct.
 func (p *ProofU) VerifyWithChallenge(pk *gabikeys.PublicKey, reconstructedChallenge *big.Int) bool {
-	return p.correctResponseSizes(pk) && p.C.Cmp(reconstructedChallenge) == 0
+	return p.checkStructure(pk) && p.correctResponseSizes(pk) && p.C.Cmp(reconstructedChallenge) == 0
 }
 
 // reconstructUcommit reconstructs U from the information in the proof and the
 // provided public key.
 func (p *ProofU) reconstructUcommit(pk *gabikeys.PublicKey) (*big.Int, error) {
+	if !p.checkStructure(pk) {
+		return nil, errors.New("malformed proof")
+	}
 	// Reconstruct Ucommit
 	// U_commit = U^{-C} * S^{VPrimeResponse} * R_0^{SResponse}
 	Uc, err := common.ModPow(p.U, new(big.Int).Neg(p.C), pk.N)
@@ -194,6 +211,25 @@ func (p *ProofD) reconstructRangeProofStructures(pk *gabikeys.PublicKey) error {
 	return nil
 }
 
+// checkStructure checks that all mandatory elements of the proof are present and
+// that all attribute indices fall within the bases of the public key.
+func (p *ProofD) checkStructure(pk *gabikeys.PublicKey) bool {
+	if p.C == nil || p.A == nil || p.EResponse == nil || p.VResponse == nil {
+		return false
+	}
+	for i, response := range p.AResponses {
+		if i < 0 || i >= len(pk.R) || response == nil {
+			return false
+		}
+	}
+	for i, attribute := range p.ADisclosed {
+		if i < 0 || i >= len(pk.R) || attribute == nil {
+			return false
+		}
+	}
+	return true
+}
+
 // correctResponseSizes checks the sizes of the elements in the ProofD proof.
 func (p *ProofD) correctResponseSizes(pk *gabikeys.PublicKey) bool {
 	minimum := big.NewInt(0)
@@ -216,6 +252,9 @@ func (p *ProofD) correctResponseSizes(pk *gabikeys.PublicKey) bool {
 // reconstructZ reconstructs Z from the information in the proof and the
 // provided public key.
 func (p *ProofD) reconstructZ(pk *gabikeys.PublicKey) (*big.Int, error) {
+	if !p.checkStructure(pk) {
+		return nil, errors.New("malformed proof")
+	}
 	// known = Z / ( prod_{disclosed} R_i^{a_i} * A^{2^{l_e - 1}} )
 	numerator := new(big.Int).Lsh(big.NewInt(1), pk.Params.Le-1)
 	numerator.Exp(p.A, numerator, pk.N)
@@ -277,6 +316,9 @@ func (p *ProofD) HasNonRevocationProof() bool {
 // reconstructed challenge.
 func (p *ProofD) VerifyWithChallenge(pk *gabikeys.PublicKey, reconstructedChallenge *big.Int) bool {
 	var notrevoked bool
+	if !p.checkStructure(pk) {
+		return false
+	}
 	// Validate non-revocation
 	if p.HasNonRevocationProof() {
 		revIdx := p.revocationAttrIndex()
